@@ -22,8 +22,13 @@ class Case:
         return (self.cls,) + tuple(sorted((k, str(v)) for k, v in self.params.items()))
 
 
+_XF = []      # one-shot transforms of the next top built by make_top (see variant())
+
+
 def make_top(p, ins, outs, body, name='top', clsname='Top', hw=None):
     """ins/outs: [(port name, width)].  body(top, I, O) instantiates the blocks inside.  Returns the top object."""
+    if _XF:
+        ins, outs, body = _XF.pop()(p, list(ins), list(outs), body)
     hw = hw or p.HWSystem()
     iw = [hw.wire('x_' + n, w) for n, w in ins]
     ow = [hw.wire('y_' + n, w) for n, w in outs]
@@ -550,4 +555,88 @@ def generator_reuse(quick):
                          'generator_reuse', {'w': w, 'variant': variant, 'call': k, 'mode': mode, 'obj': arg or 'default'}, build)
                 c.emit, c.mode = emit, mode
                 out.append(c)
+    return out
+
+
+# ------------------------------------------------------------------------------------------------ variants of existing cases
+def variant(case, tag, xf, cls):
+    """the same design with a transform xf(p, ins, outs, body) -> (ins, outs, body) applied to its top"""
+    def build(p, case=case, xf=xf):
+        del _XF[:]
+        _XF.append(xf)
+        try:
+            return case.build(p)
+        finally:
+            del _XF[:]
+    params = dict(case.params); params['base'] = case.cls; params['variant'] = tag
+    return Case('%s<%s>' % (case.id, tag), cls, params, build)
+
+
+class NotApplicable(Exception):
+    pass
+
+
+def xf_own_domain(kind):
+    """every clocked block instantiated in the top gets its OWN clock domain (`blk.clockDriver = ClockDriver('dom_clk', wire=...)`):
+    the wire is an extra input port of the top (kind 'port') or a local wire derived from it (kind 'local').  The header of the
+    block's module, its body (BodyReg / verilogBody / transpiled always block / nested structure) and the instance connection must
+    agree on the clock name."""
+    def xf(p, ins, outs, body):
+        def body2(t, I, O):
+            body(t, I[:-1], O)
+            gen = p.VerilogGenerator(t)
+            clocked = [c for c in t.children.values() if gen.anyClockableDescendant(c)]
+            if not clocked: raise NotApplicable('no clocked block')
+            w = I[-1]
+            if kind == 'local':
+                w = t.wire('cg', 1); p.Buf(t, 'ckbuf', I[-1], w)
+            for c in clocked:
+                c.clockDriver = p.ClockDriver('dom_clk', 25E6, wire=w)
+        return ins + [('ckdom', 1)], outs, body2
+    return xf
+
+
+def xf_alias_outputs(which):
+    """one wire handed to TWO outputs of the block (the first / last pair of outputs of equal width).  py4hw must refuse the design
+    (constructor raises: not a program) or the text it returns must still have one driver per net."""
+    def xf(p, ins, outs, body):
+        pairs = [(i, j) for i in range(len(outs)) for j in range(i + 1, len(outs)) if outs[i][1] == outs[j][1]]
+        if not pairs: raise NotApplicable('no two outputs of equal width')
+        i, j = pairs[0] if which == 'first' else pairs[-1]
+        def body2(t, I, O):
+            L = [t.wire('l_%d' % k, o.getWidth()) for k, o in enumerate(O)]
+            L[j] = L[i]
+            body(t, I, L)
+            for k, o in enumerate(O):
+                p.Buf(t, 'ob%d' % k, L[k], o)
+        return ins, outs, body2
+    return xf
+
+
+SEQUENTIAL = ['Reg', 'TReg', 'Counter', 'StepUpCounter', 'ModuloCounter', 'DelayLine', 'PipelinePhase', 'EdgeDetector', 'SynchronousMemory',
+              'DualPortSynchronousMemory', 'Stack_ShiftRegister', 'MsgSequencer', 'behavioural', 'behavioural_names']
+
+
+def own_domain(base_cases, quick):
+    """clocked blocks (library, body-providing, transpiled) in their own clock domain"""
+    out = []
+    per = {}
+    for c in base_cases:
+        if c.cls not in SEQUENTIAL: continue
+        per[c.cls] = per.get(c.cls, 0) + 1
+        if quick and per[c.cls] > (3 if c.cls != 'behavioural' else 99): continue
+        for kind in (['port'] if quick and per[c.cls] > 1 else ['port', 'local']):
+            out.append(variant(c, 'own clock domain on a %s' % kind, xf_own_domain(kind), 'own_domain'))
+    return out
+
+
+def aliased_outputs(base_cases, quick):
+    out = []
+    per = {}
+    for c in base_cases:
+        if c.cls in ('random_netlist', 'adversarial', 'reuse', 'clock', 'hierarchy', 'generator_reuse', 'behavioural_names'): continue
+        per[c.cls] = per.get(c.cls, 0) + 1
+        if quick and per[c.cls] > 2: continue
+        for which in ('first', 'last'):
+            out.append(variant(c, 'one wire on two outputs (%s pair)' % which, xf_alias_outputs(which), 'aliased_outputs'))
     return out
